@@ -388,6 +388,19 @@ fn run(line: &str) -> String {
             format!("TEXT {}", hex(t1.as_bytes()))
         }
         "roundtrip" => {
+            // serde_json's own guard against deep input (recursion limit 128, three JSON levels per
+            // shape level) is switched off: the property is about the shape's Serialize /
+            // Deserialize, not about that guard (see roundtrip_default)
+            let s = parse_shape(a[1]);
+            let t = serde_json::to_string(&s).unwrap();
+            let mut de = serde_json::Deserializer::from_str(&t);
+            de.disable_recursion_limit();
+            match <JsonShape as serde::Deserialize>::deserialize(&mut de).and_then(|v| de.end().map(|()| v)) {
+                Ok(s2) => format!("OK {}", shape_str(&s2)),
+                Err(_) => "ERR De".into(),
+            }
+        }
+        "roundtrip_default" => {
             let s = parse_shape(a[1]);
             let t = serde_json::to_string(&s).unwrap();
             match serde_json::from_str::<JsonShape>(&t) {
